@@ -5,7 +5,7 @@ PROPERTY = 'C04'
 THEOREMS = ['Sched.rerun_consistent', 'Sched.rerun_envcons', 'Sched.EnvCons_sub', 'Sched.decided_final_frozen', 'Sched.InvD_step', 'Sched.InvD_init', 'Sched.decide_drop_clocks', 'Sched.fresh_not_rerun', 'Sched.freshSet_of_envcons', 'Sched.InvF_step', 'Sched.decide_fresh']
 BUDGET = {'quick': 250, 'thorough': 6000}
 TIME_LIMIT = {'quick': 55, 'thorough': 700}
-RULE = ('histories of 2-5 runs with failures, recoveries, lost entries, added tasks' + '; the real QueueScheduling backend runs under the controlled scheduler; non-trivial = '
+RULE = ('histories of 2-5 runs with failures, recoveries, lost entries, added tasks; 6%: the whole `valjean run` flow run two or three times on one output root in a child process (job file, closure of the returned tasks, persisted environments read back and written), tasks that succeed, environments lost between runs' + '; the real QueueScheduling backend runs under the controlled scheduler; non-trivial = '
         '>= 3 tasks with >= 2 edges on >= 2 workers, or a special feature (cycle, stale entries, same backend, lost '
         'entries, several rounds); distinct = case hash')
 CORRESPONDS = sc.CORRESPONDS
@@ -18,21 +18,168 @@ AMBIENT_DEBUGLOG = False
 
 
 def gen(rng, tier, run):
+    if rng.random() < 0.06:
+        # the whole `valjean run` flow, twice or three times on the same output root (job file -> tasks and their closure ->
+        # persisted environments read back -> scheduler -> environments written): tasks that always succeed; between two
+        # runs the persisted environment of some tasks is lost.  A child process, real threads.
+        n = rng.randrange(2, 7)
+        deps, hard = sc.gen_graph(rng, n + 3, rng.choice([0.3, 0.5, 0.8]))
+        deps, hard = [list(d) for d in deps[:n]], [list(d) for d in hard[:n]]
+        # the job returns a few tasks (often only the last one): the others are found through their dependents
+        returned = sorted(rng.sample(range(n), rng.randrange(1, n + 1))) if rng.random() < 0.4 else [n - 1]
+        return {'cli': {'n': n, 'deps': deps, 'hard': hard, 'returned': returned, 'workers': rng.choice([1, 2, 4]),
+                        'lose': [[t for t in range(n) if rng.random() < 0.25] for _ in range(rng.choice([1, 1, 2]))]}}
     return sc.gen(rng, tier, 'C04')
 
 
-shrink = sc.shrink
-run_impl = sc.run_impl
-run_model = sc.run_model
+CLI_SCRIPT = r'''
+import json, os, sys, tempfile, textwrap, warnings
+warnings.simplefilter('ignore')
+spec = json.loads(sys.argv[1])
+from valjean.cambronne.main import main as valjean_main
+tmp = tempfile.mkdtemp(prefix='c04cli_')
+log = os.path.join(tmp, 'executions.log')
+job = os.path.join(tmp, 'c04_cli_job.py')
+with open(job, 'w') as fobj:
+    fobj.write(textwrap.dedent(f"""
+        from pathlib import Path
+        from valjean.cosette.task import Task, TaskStatus
+        LOG = Path({log!r})
+        DEPS = {spec['deps']!r}
+        HARD = {spec['hard']!r}
+
+        class Step(Task):
+            def do(self, env, config):
+                out = Path(config.query('path', 'output-root'), self.name)
+                out.mkdir(parents=True, exist_ok=True)
+                with LOG.open('a') as lg:
+                    lg.write(self.name + '\\n')
+                return ({{self.name: {{'output_dir': str(out), 'result': 1}}}}, TaskStatus.DONE)
+
+        def job():
+            tasks = []
+            for t in range({spec['n']}):
+                tasks.append(Step(f't{{t}}', deps=[tasks[d] for d in DEPS[t] if d in HARD[t]],
+                                  soft_deps=[tasks[d] for d in DEPS[t] if d not in HARD[t]]))
+            return [tasks[t] for t in {spec['returned']!r}]
+    """))
+cfg = os.path.join(tmp, 'valjean.cfg')
+with open(cfg, 'w') as fobj:
+    fobj.write(f'[path]\nlog-root = "{tmp}/log"\noutput-root = "{tmp}/output"\nreport-root = "{tmp}/report"\n')
+argv = ['-c', cfg, 'run', '-j', str(spec['workers']), job]
+
+def executions():
+    if not os.path.exists(log):
+        return {}
+    names = open(log).read().split()
+    return {name: names.count(name) for name in sorted(set(names))}
+
+rounds = []
+try:
+    valjean_main(argv)
+    rounds.append(executions())
+    for lose in spec['lose']:
+        for t in lose:
+            path = os.path.join(tmp, 'output', f't{t}', 'valjean.env')
+            if os.path.exists(path):
+                os.remove(path)
+        valjean_main(argv)
+        rounds.append(executions())
+    print('RESULT ' + json.dumps({'rounds': rounds}))
+except BaseException as exc:
+    print('RESULT ' + json.dumps({'rounds': rounds, 'raised': f'{type(exc).__name__}: {exc}'[:300]}))
+finally:
+    import shutil
+    shutil.rmtree(tmp, ignore_errors=True)
+'''
+
+
+def run_cli(case):
+    import json
+    import os
+    import subprocess
+    import sys
+    env = dict(os.environ, PYTHONPATH=os.environ.get('VERIF_REPO', '/repo'))
+    try:
+        proc = subprocess.run([sys.executable, '-c', CLI_SCRIPT, json.dumps(case['cli'])], env=env, timeout=120,
+                              stdout=subprocess.PIPE, stderr=subprocess.PIPE, text=True)
+    except subprocess.TimeoutExpired:
+        return {'cli': 'timeout'}
+    line = next((ln for ln in proc.stdout.splitlines() if ln.startswith('RESULT ')), None)
+    if line is None:
+        return {'cli': 'error', 'stderr': proc.stderr[-400:]}
+    return {'cli': json.loads(line[7:])}
+
+
+def oracle_cli(case, impl, run):
+    spec, obs = case['cli'], impl['cli']
+    run.count('via:valjean run')
+    if obs in ('timeout', 'error'):
+        return [('rerun_consistent', f"`valjean run` on {spec}: {obs} {impl.get('stderr', '')}")]
+    if 'raised' in obs:
+        return [('rerun_consistent', f"`valjean run` on {spec} raised {obs['raised']}")]
+    n, deps = spec['n'], spec['deps']
+    closure = set(spec['returned'])
+    stack = list(closure)
+    while stack:
+        for d in deps[stack.pop()]:
+            if d not in closure:
+                closure.add(d)
+                stack.append(d)
+    fails = []
+    want = {f't{t}': 1 for t in sorted(closure)}
+    if obs['rounds'][0] != want:
+        fails.append(('rerun_consistent', f"first run: executions {obs['rounds'][0]}, expected once each of {sorted(want)}"))
+        return fails
+    prev = dict(want)
+    for ri, lose in enumerate(spec['lose'], start=1):
+        # a task is executed again exactly when its persisted environment was lost or a task it depends on (hard or soft)
+        # is executed again; the other tasks (DONE, every dependency DONE and not re-executed) are left alone
+        again = set()
+        for t in sorted(closure):
+            if t in lose or any(d in again for d in deps[t]):
+                again.add(t)
+        want = {name: cnt + (1 if int(name[1:]) in again else 0) for name, cnt in prev.items()}
+        if obs['rounds'][ri] != want:
+            clause = 'fresh_not_rerun' if any(obs['rounds'][ri].get(k, 0) > v for k, v in want.items()) else 'rerun_consistent'
+            fails.append((clause, f"run {ri + 1} after losing the environments of {lose}: executions {obs['rounds'][ri]}, "
+                          f'expected {want} (graph {deps}, job returns {spec["returned"]})'))
+            break
+        prev = want
+    return fails
+
+
+def shrink(case):
+    if 'cli' in case:
+        return iter(())
+    return sc.shrink(case)
+
+
+def run_impl(case, run):
+    if 'cli' in case:
+        return run_cli(case)
+    return sc.run_impl(case, run)
+
+
+def run_model(case, driver, run):
+    if 'cli' in case:
+        return None
+    return sc.run_model(case, driver, run)
+
+
 compare = sc.compare
 
 
 def oracle(case, impl, run):
+    if 'cli' in case:
+        return oracle_cli(case, impl, run)[:6]
     sc.histogram(case, impl, run)
     return sc.oracle_c04(case, impl, run)[:6]
 
 
 def nontrivial(case, impl):
+    if 'cli' in case:
+        return case
     return sc.nontrivial_key(case, impl)
 
 
